@@ -11,6 +11,7 @@
 #include "CutCreator.h"
 
 #include <common/Random.h>
+#include <common/VerifTrace.h>
 #include <models/ModelBuilder.h>
 
 #include <unordered_set>
@@ -123,6 +124,21 @@ void LASolver::storeExplanation(Simplex::Explanation &&explanationBounds) {
         explanation.push(asgn);
         explanationCoefficients.push_back(explanationBounds[i].coeff);
     }
+#ifdef OPENSMT_VERIF
+    if (VERIF_ON() and explanation.size() > 0) {
+        std::string verifLine = "fk ";
+        char verifBuf[64];
+        std::snprintf(verifBuf, sizeof verifBuf, "%p %p", static_cast<void const *>(this), static_cast<void const *>(&logic));
+        verifLine += verifBuf;
+        for (int i = 0; i < explanation.size(); ++i) {
+            VERIF_TERM(logic, explanation[i].tr);
+            std::snprintf(verifBuf, sizeof verifBuf, " %u %d ", explanation[i].tr.x, explanation[i].sgn == l_True ? 1 : 0);
+            verifLine += verifBuf;
+            verifLine += explanationCoefficients[i].get_str();
+        }
+        VERIF_LINE("%s", verifLine.c_str());
+    }
+#endif
 }
 
 bool LASolver::check_simplex(bool complete) {
